@@ -148,12 +148,17 @@ func vEMTQualifies(truth []RawType, i int, thr, nmono, maxMono int) bool {
 func vRunC08(c *vCase) {
 	r := c.R
 	var npre, nsamp int
-	switch r.Intn(4) {
+	switch r.Intn(5) {
 	case 0:
 		npre, nsamp = 4, 8
 	case 1:
 		npre = 4 + r.Intn(8)
 		nsamp = npre + 4 + r.Intn(10)
+	case 2:
+		// at and below the boundary of the validity rule (zero-threshold refinement needs four samples on either side): whatever
+		// combination the code accepts here is run like any other; what it refuses is not run
+		npre = 3 + r.Intn(10)
+		nsamp = npre + 1 + r.Intn(4)
 	default:
 		npre = 4 + r.Intn(80)
 		nsamp = npre + 4 + r.Intn(150)
